@@ -3,6 +3,15 @@
 REFLECT = "Go reflect / runtime semantics as specified in the model (DESIGN.md 3.4)"
 
 PROPS = {
+    "C05": {
+        "gens": ["Cache"],
+        "lean": "Anko.Props.C05",
+        "streams": [{"name": "ops", "n_quick": 4000, "n_thorough": 60000}],
+        "trusted": ["FOps instance of the driver = Lean Float = IEEE binary64 = Go float64 on amd64",
+                    "Go strconv/fmt float formatting and parsing outside the model's exact domain are answered `unsupported` and not compared"],
+        "assumptions": ["float operations are abstract (class FOps): theorems state which float operation is applied to which operands",
+                        "string*n beyond 64 KiB and float->int64 outside the exactly converted range are outside the model (resource class / implementation-defined in Go)"],
+    },
     "C17": {
         "gens": ["AstSchema", "Walker"],
         "lean": "Anko.Props.C17",
@@ -15,6 +24,19 @@ PROPS = {
 
 # Texts for MANIFEST.json (level_claimed.text, level_note, technique, design_ref)
 MANIFEST_TEXT = {
+    "C05": {
+        "text": "Machine-checked proofs (Lean 4) over an operator model mirrored from vmOperator.go/vmToX.go: for ALL int64 operand pairs "
+                "+ - * & | are the BitVec-64 (wrapping) operations, % is Go's truncated remainder with an error exactly for 0, shift counts "
+                "are unsigned (>=64 gives 0 / sign fill), comparisons are exact signed comparisons; / is always the float64 quotient; one "
+                "float operand makes + - * and orderings float; string concatenation / repeat laws; and over cache facts REGENERATED from "
+                "vm.go: the small-int cache guard only admits in-range indices whose slot was initialised with exactly that value. "
+                "Correspondence: ~50k operator applications (all operators x all pairs of the boundary pool, trees, mixed kinds) through model "
+                "and interpreter; oracle: native Go int64/float64 arithmetic.",
+        "note": "Trusted: Lean kernel; that the model's functions mirror the Go code (validated by the correspondence on every run); "
+                "abstract float ops (FOps) instantiated by IEEE binary64 in the driver; the cache extractor (closed shapes).",
+        "technique": "Lean 4 proof (BitVec algebra, omega) + regenerated cache facts + differential correspondence",
+        "design_ref": "DESIGN.md section 6 (C05)",
+    },
     "C17": {
         "text": "Machine-checked proof (Lean 4) that a walker driven by a complete arm table presents every node of every "
                 "well-formed tree, parent before children, with no error unless the callback errs and stopping at the first "
